@@ -288,7 +288,7 @@ def gen_world(rng, profile=None):
         names = ["fa", "fb"] + (["fc"] if rng.random() < 0.3 else [])
         fleets = {n: {"vehicles": [], "stations": [], "bases": []} for n in names}
         for v in vehicles:
-            for n in rng.sample(names, rng.choice(prof.get("veh_fleet_counts", [0, 1, 1, 2]))):
+            for n in rng.sample(names, min(len(names), rng.choice(prof.get("veh_fleet_counts", [0, 1, 1, 2])))):
                 fleets[n]["vehicles"].append(v["id"])
         for s in stations:
             for n in rng.sample(names, rng.choice([0, 0, 1, 2])):
